@@ -224,7 +224,7 @@ def lt_contracts(prop="C12"):
     out = []
     for mod, qual in (("ford.sourceform", "FortranBase.__lt__"), ("ford.graphs", "BaseNode.__lt__")):
         c = Contract(mod, qual, prop)
-        c.fields = {"ident": "str"}
+        c.fields = {"ident": "str", "name": "str"}
         c.param("self", TRef())
         c.param("other", TRef())
         if "sourceform" in mod:
